@@ -536,3 +536,32 @@ def for_each_view(n):
         return {"k": "MethodCall", "method": "for_each", "recv": sc["args"][0], "span": n.get("span"), "synthetic_for": True,
                 "args": [{"k": "Closure", "params": [some[0]["pat"]["fields"][0]["pat"]], "body": body, "span": n.get("span")}]}
     return None
+
+
+def known_bools_at(b, bb):
+    """{local: bool} for boolean locals whose value is fixed when block bb executes: the discriminants of the switches bb is control dependent on
+    (and the variables they are plain copies of). Feeds Body.reach_feasible(.., known=..)."""
+    known = {}
+    for (a, s_) in b.control_deps_trans(bb):
+        t = b.blocks[a]["term"]
+        if t["k"] != "switch" or t.get("discr_ty") != "bool" or t["discr"]["k"] not in ("copy", "move") or t["discr"]["pl"]["p"]:
+            continue
+        val = None
+        for arm in t["arms"]:
+            if arm["target"] == s_:
+                val = (arm["val"] != 0)
+        if val is None and t["otherwise"] == s_:
+            vs = {arm["val"] for arm in t["arms"]}
+            val = True if vs == {0} else (False if vs == {1} else None)
+        if val is None:
+            continue
+        l = t["discr"]["pl"]["l"]
+        for _ in range(4):
+            known[l] = val
+            ds = b.defs().get(l, [])
+            if len(ds) == 1 and ds[0][0] == "stmt" and ds[0][3]["k"] == "assign" and ds[0][3]["rv"]["k"] == "use" and \
+                    ds[0][3]["rv"]["op"]["k"] in ("copy", "move") and not ds[0][3]["rv"]["op"]["pl"]["p"]:
+                l = ds[0][3]["rv"]["op"]["pl"]["l"]
+            else:
+                break
+    return known
